@@ -3,7 +3,7 @@ import os, random
 from tools import vlib, t3
 
 MODULE = "PropC09"
-THEOREMS = ["C09_code_conforms", "C09_fail_is_exit", "C09_exit_is_final", "C09_failed_outputs_untouched", "C09_no_dependants", "C09_window_no_dependants", "C09_window_gone_is_final", "C09_window_failed_is_stopped"]
+THEOREMS = ["C09_code_conforms", "C09_fail_is_exit", "C09_exit_is_final", "C09_failed_outputs_untouched", "C09_no_dependants", "C09_window_no_dependants", "C09_window_gone_is_final", "C09_window_failed_is_stopped", "C09_cone_conforms"]
 FAILKINDS = ["before", "partial", "afterfull", "omit", "signal"]
 
 
